@@ -171,14 +171,10 @@ def tiefree_points(draw, n, dim, coord_bits=6):
             pts.append(cand)
             used.update(ds)
         elif tries > 40 * n:
-            # deterministic fallback: grow along a super-increasing sequence on axis 0
-            base = max((abs(c) for p in pts for c in p), default=0) * 3 + 7 + len(pts)
-            cand = [base * (len(pts) + 2) * 5] + [0] * (dim - 1)
-            ds = [_sqd_int(cand, p) for p in pts]
-            if all(d > 0 for d in ds) and len(set(ds)) == len(ds) and not (set(ds) & used):
-                pts.append(cand)
-                used.update(ds)
-            lim *= 2
+            # deterministic fallback (reached by degenerate / shrunk draws): a Golomb-like ruler 2^i - 1 on axis 0 -
+            # all pairwise differences, hence all squared distances, are distinct and exactly representable
+            pts = [[(1 << i) - 1] + [0] * (dim - 1) for i in range(n)]
+            break
     return [[c / 8.0 for c in p] for p in pts]
 
 
